@@ -22,7 +22,7 @@ def step(W, sem, K=3, L=9, timeout=600):
 
 def obligations(tier):
     obs = []
-    Ws = [6, 8, 11] if tier == "quick" else [6, 7, 8, 9, 10, 11, 12]
+    Ws = [6, 7, 8] if tier == "quick" else [6, 7, 8, 9, 10, 11, 12]
     for W in Ws:
         obs.append(step(W, 0))
     for W in ([8] if tier == "quick" else [6, 8, 11]):
